@@ -653,6 +653,9 @@ func (fr *Frame) convert(x *ssa.Convert) *Val {
 		vc.S.Assert(fmt.Sprintf("(forall ((i Int)) (! (=> (and (<= 0 i) (< i (str-len %s))) (= (select %s i) (str-at %s i))) :pattern ((select %s i))))", s, arr, s, arr))
 		fr.cur.Set(mn, sto(fr.cur.Get(mn), r.T, arr))
 		l := "(str-len " + s + ")"
+		// round trip: string([]byte(s)) == s
+		vc.needStrOfBytes()
+		vc.S.Assert(eq(fmt.Sprintf("(str-of-bytes %s 0 %s)", arr, l), s))
 		return &Val{Typ: to, Sl: &SliceParts{r.T, "0", l, l}}
 	case fs == "Int" && ts == "Str":
 		vc.drop("int-to-string")
